@@ -30,6 +30,20 @@ class World:
     pass
 
 
+def tol(dtype):
+    """Slack for quantities whose arithmetic is NOT exact (logarithms, Black-Scholes kernels, matrix
+    products over non-dyadic numbers).  Two evaluations of the same row-wise function on the same
+    row may differ in the last bits when the row sits at another position of the batch or the batch
+    has another shape (SIMD body vs tail, BLAS blocking; observed: 1 ulp in float32 through a
+    ModuleOutput chain).  Amplified through a Black-Scholes delta at 1/256 to maturity
+    (d1 = s / (sigma sqrt t): factor <= 1/(0.125 * 0.0625) = 128) and a few layers, 4096 eps bounds it
+    generously: 9.1e-13 in float64 (the 1e-12 of DESIGN 4/C02-C03), 4.9e-4 in float32.  Any defect in
+    scope (a look-ahead, a wrong step index, a stale state) moves values by >= 1e-2 on the alphabets.
+    Used as atol + rtol*|ref| with atol = rtol = tol(dtype).  Exact (dyadic) quantities are compared
+    bitwise."""
+    return max(1e-12, 4096 * torch.finfo(dtype).eps)
+
+
 def repo_frame(exc):
     """'file:function' of the deepest pfhedge frame in the traceback of ``exc`` (None if the
     exception never passed through pfhedge code: then it is a harness bug).  Unlike runner.blame
